@@ -201,6 +201,19 @@ def run(ctx):
         ok = ok and bool(rets) and all(truthy(fi[x.id], flagv) for x in rets)
     r.check(ok, "%s#too-small-iff-nothing-yielded" % it.qname, "truncation is not reported as fetch-size-too-small exactly when no message was complete",
             where(it, it.node), "consumer never grows its buffer (stalls) or drops complete messages")
+    # ... and the iterator stops nowhere else: a `return` / `break` is either in the underflow arm or where the cursor has
+    # reached the end of the data (every entry that is completely there is decoded, however small it is)
+    if len(hs) == 1:
+        stops = [n for n in ci.nodes if n.kind == "stmt" and isinstance(n.stmt, (ast.Return, ast.Break))]
+        loops_ = [n for n in ci.nodes if n.kind == "test" and isinstance(n.stmt, ast.While)]
+        end_txts = set()
+        for l_ in loops_:
+            from ..cfg import cond_atoms as _ca3
+            end_txts |= {t for t, p in _ca3(l_.stmt.test, False) if p}
+        early = [n for n in stops if not ci.dominates([hs[0].id], n.id) and not any((t, True) in fi[n.id] for t in end_txts)]
+        r.check((bool(loops_) or any(n.kind == "for" for n in ci.nodes)) and not early, "%s#stops-only-at-the-end-or-on-underflow" % it.qname,
+                "the set iterator can stop (line %s) although data remains and nothing underflowed" % [n.stmt.lineno for n in early],
+                where(it, early[0].stmt if early else it.node), "a complete final entry of minimal size (null key and value: 26 bytes) is dropped silently")
     hs2 = [n for n in cf.nodes if n.kind == "except"]
     r.check(not hs2, "%s#no-handlers" % dm.qname, "_decode_message swallows exceptions", where(dm, dm.node))
 
@@ -319,7 +332,7 @@ def run(ctx):
             witness="struct.error (not a Kafka error) escapes, or data is read past the buffer checks")
 
     # ---- R7 consumer grows, never skips
-    r = ctx.rule("R7", "the consumer's too-small arm grows the buffer and does not move the fetch position", 1, "B")
+    r = ctx.rule("R7", "the consumer's too-small arm grows the buffer and does not move the fetch position", 2, "B")
     hfr = ctx.func("consumer:Consumer._handle_fetch_response")
     cc = ctx.cfg(hfr)
     ex = [n for n in cc.nodes if n.kind == "except" and "ConsumerFetchSizeTooSmall" in norm(n.stmt.type)]
@@ -327,6 +340,20 @@ def run(ctx):
     arm = [cc.nodes[i] for i in cc.reach([ex[0].id])]
     from .c14 import buffer_kernel
     buffer_kernel(ctx, r)
+    # the signal is raised where the consumer's handler stands: the reply decoder hands the message set over as the (lazy)
+    # iterator - decoded inside the client it would surface as a failed request and be retried with the same buffer for ever
+    dfr = ctx.func("kafkacodec:KafkaCodec.decode_fetch_response")
+    # (the constructor call may sit in a closure of the decoder or in a helper of the codec)
+    mk_ = [(f2, ctx.cfg(f2), n, c) for f2 in sorted(prog.functions(module="kafkacodec"), key=lambda x: x.qname) for n in ctx.cfg(f2).nodes
+           for c in n.calls() if call_name(c) == "FetchResponse"]
+    okl = bool(mk_)
+    for f2, cdf, n, c in mk_:
+        marg = kwarg(c, "messages") if kwarg(c, "messages") is not None else (c.args[4] if len(c.args) > 4 else None)
+        ogs = (value_origins(cdf, n.id, marg, params=f2.params) if isinstance(marg, ast.Name) else [(n.id, marg)]) if marg is not None else None
+        okl = okl and bool(ogs) and all(isinstance(e_, ast.Call) and call_name(e_) == "_decode_message_set_iter" for _d, e_ in ogs)
+    r.check(okl, "%s#message-set-handed-over-undecoded" % dfr.qname, "the fetch reply decoder does not hand the message set to the consumer as the "
+            "lazy iterator of the set decoder", where(mk_[0][0], mk_[0][3]) if mk_ else where(dfr, dfr.node), "a message larger than the fetch buffer: the too-small "
+            "signal is raised inside the client, the consumer sees a failed fetch and retries with the same buffer for ever")
     r.check(not any(n.stmt is not None and node_writes_attr(n, "_fetch_offset") for n in arm) and any(
         n.stmt is not None and node_writes_attr(n, "buffer_size") for n in arm), "%s#grow-not-skip" % hfr.qname,
         "too-small arm moves the fetch position or does not grow the buffer", where(hfr, ex[0].stmt), "the large message is skipped")
